@@ -76,8 +76,13 @@ func c12Gen(class string, seed uint64, tier string) *vfScenario {
 		}
 	default:
 		sc.Ops = c01GenOps(rng, P, M, 1+rng.IntN(20), true)
-		// invalid whence values now and then
+		// invalid whence values and failing ReadFrom sources now and then
 		for i := range sc.Ops {
+			if (sc.Ops[i].K == "readfrom" || sc.Ops[i].K == "readfromc") && rng.IntN(4) == 0 {
+				var kind, hd, fa, ch int
+				fmt.Sscanf(sc.Ops[i].S, "%d,%d,%d,%d", &kind, &hd, &fa, &ch)
+				sc.Ops[i].S = fmt.Sprintf("%d,%d,%d,%d", kind, hd, rng.IntN(sc.Ops[i].N+1), ch)
+			}
 			if sc.Ops[i].K == "seek" && rng.IntN(8) == 0 {
 				sc.Ops[i].A = int64([]int{3, -1, 7}[rng.IntN(3)])
 			}
